@@ -16,7 +16,8 @@ RULE = ('seeded operation histories (append/appendleft/pop/popleft/clear/len and
         'not constrained); pop/popleft return the ends; clear() returns normally and leaves 0 events and 0 tokens; tokens >= '
         'events at every operation boundary and tokens == events in histories that only take through the consumer protocol; a '
         'concurrent stratum lets 2-3 threads post and clear() at the same time (optionally with a consuming thread) under the '
-        'seeded scheduler and demands, once everything is idle again, a token for every pending event and no thread blocked. '
+        'seeded scheduler (in part of the runs a small queue is flooded with posts while a consumer takes events) and demands that the '
+        'consumer always takes the front event, and once everything is idle again a token for every pending event and no thread blocked. '
         'Non-trivial = a history that posts to a full queue or clears; distinct = distinct (target, capacity, op kinds at '
         'full-queue/empty-queue boundaries) tuples.')
 ASSUMPTIONS = ['sequential histories: under concurrency tokens < events is legitimately transient and the obligation is C04\'s']
@@ -33,11 +34,18 @@ def generate(seed, stratum, tier):
   if stratum == 'concurrent':
     cap = rng.choice([3, 4, 6, 500])
     threads = []
-    for t in range(rng.randrange(2, 4)):
-      threads.append([rng.choices(['append', 'appendleft', 'clear'], weights=[4, 3, 2])[0] for _ in range(rng.randrange(1, 5))])
-    if not any('clear' in t for t in threads):
-      threads[0].append('clear')
-    return {'target': 'concurrent', 'cap': cap, 'threads': threads, 'consumer': rng.random() < 0.5, 'ops': [],
+    race = rng.random() < 0.45
+    if race:
+      # overflow race: a small queue is flooded with fifo posts while a consumer takes events
+      cap = rng.choice([2, 3, 3, 4])
+      for t in range(rng.randrange(1, 4)):
+        threads.append([rng.choices(['append', 'appendleft'], weights=[5, 1])[0] for _ in range(rng.randrange(cap + 1, cap + 6))])
+    else:
+      for t in range(rng.randrange(2, 4)):
+        threads.append([rng.choices(['append', 'appendleft', 'clear'], weights=[4, 3, 2])[0] for _ in range(rng.randrange(1, 5))])
+      if not any('clear' in t for t in threads):
+        threads[0].append('clear')
+    return {'target': 'concurrent', 'cap': cap, 'threads': threads, 'consumer': True if race else rng.random() < 0.5, 'ops': [],
             'sched': common.draw_sched(rng, grans=('line', 'opcode'), weights=(1, 2), expected_steps=300, policies=('sticky', 'pct'))}
   cap = rng.randrange(2, 7)
   n = rng.randrange(3, 30)
@@ -141,6 +149,7 @@ def execute_concurrent(sc, sched):
 
   def main():
     box['q'] = ao.LockingDeque()
+    box['q'].deque._watch = True
     if sc.get('consumer'):
       sim.spawn(consumer, role='consumer')
     for k, ops in enumerate(sc['threads']):
@@ -161,7 +170,15 @@ def execute_concurrent(sc, sched):
     res.violate('over-capacity', {'op': over[0][1]}, 'queue held %d events, capacity %d' % (over[0][2], sc['cap']))
   elif q is not None:
     n, tk = q.deque.real_len(), q.locking_queue._qsize()
-    if tk < n:
+    from checks import ao_common as ac
+    label = q.deque._label
+    ops = [(seq, tn, op, detail, 0) for seq, tn, kind, lab, op, detail in sim.history if kind == 'deque' and lab == label]
+    rq = ac.replay_ops(ops, sc['cap'])
+    if rq['not_front']:
+      seq, tn, got, queue = rq['not_front'][0]
+      res.violate('took-not-the-front', {'op': 'concurrent'},
+                  '%s took %s with popleft while the pending events were %s (front first); threads: %s' % (tn, got, queue, sc['threads']))
+    elif tk < n:
       res.violate('token-lost', {'op': 'concurrent', 'consumer': bool(sc.get('consumer'))},
                   'all threads are idle: %d event(s) pending but only %d wake-up token(s) (a consumer would sleep on a non-empty queue); threads: %s' % (n, tk, sc['threads']))
   res.nontrivial.append(hash((sc['cap'], tuple(tuple(kernel._stable(o) for o in t) for t in sc['threads']), sim.switch_signature())))
